@@ -63,4 +63,6 @@ def panel (f : Feat) : Panel :=
     prog := prog f,
     ctrl := .uc (Uc.por WIDTH HEIGHT 1 7 false) }
 
+attribute [driver_simp] W sendResolution init updateAchromatic updateChromatic updateFrame displayFrame borderByte prog
+
 end EpdVerif.Drivers.Epd2in13bc
